@@ -363,4 +363,6 @@ func rulesC09(e *Engine, r *Report) {
 	checkCompanionPathsExplicit(e, r, "R09.13")
 	// ---------------------------------------------------------------- R09.14
 	e.shareRule(r, "C08", "R08.6", "R09.14", "an entry of a file that failed its validation is no evidence of held parts: `part already received` is answered from the cache only for an equal-hash entry that is not failed")
+	// ---------------------------------------------------------------- R09.15
+	e.shareRule(r, "C20", "R20.2", "R09.15", "acknowledged parts stay on record: the cleaner takes a partial and its companion away only for the version the cache or the log - asked with the companion's own hash - knows as delivered")
 }
